@@ -289,7 +289,8 @@ def check_rows_match(row1: Row[Variable], row2: Row[Variable], bb: BB) -> None:
     types on different control-flow paths.
     """
     map1, map2 = {v.name: v for v in row1}, {v.name: v for v in row2}
-    for x in map1.keys() | map2.keys():
+    # Iterate in a fixed order so the reported variable doesn't depend on string hashing
+    for x in sorted(map1.keys() | map2.keys()):
         # If block signature lengths don't match but no undefined error was thrown, some
         # variables may be shadowing global variables.
         v1, v2 = map1[x], map2[x]
